@@ -141,7 +141,9 @@ func (opts GeneratorOptions) setFieldValue(t *rapid.T, msg protoreflect.Message,
 		for i := 0; i < n; i++ {
 			if kind == protoreflect.MessageKind || kind == protoreflect.GroupKind {
 				if !opts.setFields(t, field, list.AppendMutable().Message(), depth+1) {
-					list.Truncate(i)
+					// drop the element that could not be generated: it is the last one
+					// (i is not its index once an earlier element has been dropped)
+					list.Truncate(list.Len() - 1)
 				}
 			} else {
 				list.Append(opts.genScalarFieldValue(t, field, fmt.Sprintf("%s%d", name, i)))
